@@ -130,7 +130,7 @@ func init() {
 		Units: []string{"fasthttp.(*RequestHeader).SetCookie", "fasthttp.(*RequestHeader).collectCookies", "fasthttp.parseRequestCookies", "fasthttp.appendRequestCookieBytes", "fasthttp.(*cookieScanner)", "fasthttp.decodeCookieArg", "fasthttp.validCookieValue", "fasthttp.(*RequestHeader).peek"},
 		Runs: []Run{
 			{Pkg: "fasthttp", Func: "vhC06RequestCookies", Quick: map[string]int{"cookies": 2, "keyLen": 1, "valLen": 1}, Thorough: map[string]int{"cookies": 2, "keyLen": 1, "valLen": 2}, PathCap: 1500000},
-			{Pkg: "fasthttp", Func: "vhC06ResponseCookie", Quick: map[string]int{"keyLen": 1, "valLen": 1, "pathLen": 2}, Thorough: map[string]int{"keyLen": 1, "valLen": 2, "pathLen": 3}, PathCap: 1500000},
+			{Pkg: "fasthttp", Func: "vhC06ResponseCookie", Quick: map[string]int{"keyLen": 1, "valLen": 1, "pathLen": 2}, Thorough: map[string]int{"keyLen": 1, "valLen": 2, "pathLen": 2}, PathCap: 1500000},
 		},
 		Assume: []string{
 			"request cookies: up to `cookies` SetCookie calls with arbitrary key/value bytes; the server side is a second RequestHeader given the serialised Cookie value, fresh or reused after an earlier request with cookies",
@@ -574,7 +574,7 @@ func init() {
 		},
 		Assume: []string{
 			"the oracle is net/http itself, interpreted by the engine: the same handler program is served by net/http's own Server (Serve, conn.serve, readRequest, response, chunkWriter — all interpreted from the Go release's source) and by fasthttp's Server through NewFastHTTPHandler, each over a scripted in-memory connection, and the two byte streams are read back by one client-side reader (interim 1xx responses skipped; body by Content-Length, chunked or close)",
-			"handler programs: up to `ops` operations from WriteHeader(103|201|204|304|404), Header().Add/Set/Del on X-A, X-B, Content-Type, Write of 3 bytes (one symbolic), Flush — against GET, HEAD, POST-with-body (HTTP/1.1, Connection: close) and an HTTP/1.0 GET; compared: final status, the values of the handler-set fields, a handler-set Content-Type, body. Content sniffing (http.DetectContentType) is one constant for both sides under the engine; Date / Server / default Content-Type / framing fields are not compared; trailers, Hijack, bodies beyond net/http's 2 KiB write buffer, panicking handlers and request bodies read by the handler are outside",
+			"handler programs: up to `ops` operations from WriteHeader(103|201|204|304|404), Header().Add/Set/Del on X-A, X-B, Content-Type, Write of 3 bytes (one symbolic), Write of no bytes, Flush — against GET, HEAD, POST-with-body (HTTP/1.1, Connection: close) and an HTTP/1.0 GET; compared: final status, the values of the handler-set fields, a handler-set Content-Type, body. Content sniffing (http.DetectContentType) is one constant for both sides under the engine; Date / Server / default Content-Type / framing fields are not compared; trailers, Hijack, bodies beyond net/http's 2 KiB write buffer, panicking handlers and request bodies read by the handler are outside",
 			"request half: net/http's parse (http.ReadRequest) against ConvertRequest called inside the real fasthttp serve loop, over 5 methods × 6 targets (origin-form with query, absolute-form, escaped, \"//p\") × HTTP/1.1|1.0 × 8 header sets (repeated, mixed-case, Cookie twice, User-Agent/Accept/Content-Type, Pragma, Connection) × no body | Content-Length | chunked, plus a symbolic byte in the path or query and in the Host (header or absolute target); compared: method, URL fields, RequestURI, Proto/ProtoMajor/ProtoMinor, Host, the header map over 12 names and its size, body. Requests either side refuses are not compared; ContentLength / TransferEncoding / RemoteAddr / TLS fields are outside",
 		},
 	})
